@@ -46,6 +46,7 @@ fn gen_plan(rng: &mut Rng, tier: &str) -> Plan {
     let mut deleted: BTreeSet<u64> = BTreeSet::new();
     let mut logged = 0usize;
     let mut cycles = vec![];
+    let mut prev_tail: Vec<u64> = vec![];
     for _ in 0..ncycles {
         let want = *rng.pick(&[1usize, 3, 100, 255, 256, 257, 300, 511, 513, 700]);
         let room = capacity_slots.saturating_sub(logged + 2);
@@ -60,7 +61,13 @@ fn gen_plan(rng: &mut Rng, tier: &str) -> Plan {
         logged += deletes.len();
         let mut dp: Vec<u64> = deleted.iter().copied().collect();
         rng.shuffle(&mut dp);
-        let reinserts: Vec<u64> = dp.into_iter().take(rng.usize(6)).collect();
+        // prefer the keys whose deletes were the newest ones of the previous cycle (they carry the highest tombstone
+        // sequences: a re-insert after the restart must still win against them at the restart after that)
+        let mut reinserts: Vec<u64> = prev_tail.iter().copied().filter(|k| deleted.contains(k)).collect();
+        reinserts.extend(dp.into_iter().take(rng.usize(6)));
+        reinserts.sort();
+        reinserts.dedup();
+        prev_tail = deletes.iter().rev().take(3).copied().collect();
         for k in &reinserts {
             deleted.remove(k);
             present.insert(*k);
@@ -92,6 +99,14 @@ async fn run_plan(plan: &Plan) -> Result<Outcome, String> {
     let mut total_deletes = 0usize;
     let mut reopens = 0usize;
     for (ci, cy) in plan.cycles.iter().enumerate() {
+        // re-inserts of keys deleted in earlier cycles come first: they are the first sequence numbers drawn after the restart
+        for k in cy.reinserts.iter().filter(|k| !cy.deletes.contains(k)) {
+            let o = ex.step(&HOp::Insert { k: *k, size: 64, loc: Loc::Default }).await;
+            if let Some(Seen::Hit(s)) = o.seen {
+                latest.insert(*k, Some(s));
+            }
+        }
+        ex.step(&HOp::Wait).await;
         for k in &cy.deletes {
             ex.step(&HOp::Remove { k: *k }).await;
             latest.insert(*k, None);
@@ -106,7 +121,7 @@ async fn run_plan(plan: &Plan) -> Result<Outcome, String> {
             }
         }
         ex.step(&HOp::Wait).await;
-        for k in &cy.reinserts {
+        for k in cy.reinserts.iter().filter(|k| cy.deletes.contains(k)) {
             let o = ex.step(&HOp::Insert { k: *k, size: 64, loc: Loc::Default }).await;
             if let Some(Seen::Hit(s)) = o.seen {
                 latest.insert(*k, Some(s));
